@@ -267,7 +267,7 @@ def body(PROP, plan):
                               dict(behaviour=b, violation=v, trace=evs[s:e]))
 
         ends = [e for e in evs if e["ev"] == "end"]
-        stuck = [e for e in ends if not e["quiet"]]
+        stuck = [e for e in ends if not e["quiet"] and not e.get("loop")]
         drift = sum(1 for e in ends if e["drift"])
         panics = [e for e in evs if e["ev"] in ("panic",)] + [e for e in ends if e["fatal"]]
         if not res.violations:
